@@ -102,10 +102,17 @@ def mc_trees(ctx):
         return vlib.tlc(ctx, 'JsRenamer', 'JsRenamer_withcross.cfg', workers=2, timeout=1200)
 
     vlib._speccopy(ctx)      # the scratch copy of spec/ is made once, before the parallel TLC runs
-    with ThreadPoolExecutor(max_workers=len(cfgs) + 1) as ex:
+    def inner(_):
+        # likewise for the known finding with-inner: with a declared name inside the generated range (LocalNames
+        # contains "a") the model of the code violates CaptureFree
+        return vlib.tlc(ctx, 'JsRenamer', 'JsRenamer_withinner.cfg', workers=2, timeout=1200)
+
+    with ThreadPoolExecutor(max_workers=len(cfgs) + 2) as ex:
         fx = ex.submit(cross, None)
+        fi = ex.submit(inner, None)
         results = list(ex.map(mc, cfgs))
         rx = fx.result()
+        ri = fi.result()
     trees = []
     for cfg, r in zip(cfgs, results):
         n0 = len(trees)
@@ -114,6 +121,7 @@ def mc_trees(ctx):
         ctx.coverage.setdefault('mc_runs', []).append(dict(cfg=cfg, states=r['distinct'], trees=len(trees) - n0,
                                                             wall_s=round(r['wall'], 1)))
     ctx.coverage['design_counterexample_WithCross'] = 'WithCross' in rx['invariant_violations']
+    ctx.coverage['design_counterexample_WithInner'] = 'CaptureFree' in ri['invariant_violations']
     return trees
 
 
@@ -331,7 +339,8 @@ def run(ctx):
              'known findings (known/C02.txt; witnesses pinned and replayed on every run): (1) a with statement whose '
              'body references a renamable binding declared outside the innermost function containing it; (2) a loop '
              'body block that re-declares the loop variable name and refers to it before the inner declaration; '
-             '(3) declarations inside a class static block; (4) parameter defaults/patterns and array/object literals '
+             '(2b) a function that contains with, declares a name the renamer may hand out and refers to a local of '
+             'an enclosing function; (3) declarations inside a class static block; (4) parameter defaults/patterns and array/object literals '
              'with identifiers inside an object-literal method written inside a parenthesised expression; (5) a '
              'function whose parameter default references a name that its body declares with var, or declares at all '
              'when the function has a rest parameter. Repository inputs with a function declaration nested in a block '
